@@ -723,6 +723,16 @@ func (x *Exec) callCommon(st *State, c *ssa.CallCommon, i ssa.Value, pos token.P
 			return true
 		}
 	}
+	if x.fc != nil && len(x.fc.InlineHere) > 0 && callee.Blocks != nil && len(st.stack) < 8 {
+		for _, sub := range x.fc.InlineHere {
+			if strings.Contains(key, sub) {
+				// the contract of the function under verification asks for this callee's body (e.g. a higher-order
+				// iterator whose callback is a closure of this function)
+				x.pushFrame(st, callee, args, clo, i)
+				return true
+			}
+		}
+	}
 	if fc != nil && !fc.Inline {
 		x.pendingClo = clo
 		res := x.applyContract(st, fc, key, callee, sig, args, pos)
@@ -819,6 +829,7 @@ func (x *Exec) pushFrame(st *State, callee *ssa.Function, args []Val, clo []Val,
 		x.analyzeLoops(callee)
 	}
 	nf := &Frame{fn: callee, vals: map[ssa.Value]Val{}, locals: map[string]Val{}, retTo: retTo, oldHeap: st.top().oldHeap, oldNow: st.top().oldNow}
+	nf.site = callSiteOrdinal(st.top().fn, retTo, callee)
 	for i, p := range callee.Params {
 		if i < len(args) {
 			a := args[i]
@@ -837,6 +848,42 @@ func (x *Exec) pushFrame(st *State, callee *ssa.Function, args []Val, clo []Val,
 	if len(callee.Blocks) > 0 {
 		x.enterBlock(st, callee.Blocks[0], nil)
 	}
+}
+
+// callSiteOrdinal: 1-based position of the call instruction among the caller's calls (in block order) whose static
+// callee is the given function (0 when the call is not a static call of it).
+func callSiteOrdinal(caller *ssa.Function, call ssa.Value, callee *ssa.Function) int {
+	if caller == nil || call == nil {
+		return 0
+	}
+	co := callee
+	if o := callee.Origin(); o != nil {
+		co = o
+	}
+	n := 0
+	for _, b := range caller.Blocks {
+		for _, in := range b.Instrs {
+			c, ok := in.(*ssa.Call)
+			if !ok {
+				continue
+			}
+			sc := c.Common().StaticCallee()
+			if sc == nil {
+				continue
+			}
+			if o := sc.Origin(); o != nil {
+				sc = o
+			}
+			if sc != co {
+				continue
+			}
+			n++
+			if ssa.Value(c) == call {
+				return n
+			}
+		}
+	}
+	return 0
 }
 
 func (x *Exec) analyzed(fn *ssa.Function) bool {
